@@ -99,6 +99,10 @@ pub struct G01<'a> {
     pub derived_nested: bool,
     pub global_interaction: bool,
     in_closure_depth: u32,
+    /// names that must not be referenced while an internal definition of that name is initialised
+    hidden: Vec<String>,
+    /// statistics: bindings that shadow an enclosing binding of the same name
+    pub shadowings: usize,
 }
 
 const SYMS: [&str; 8] = ["a", "b", "c", "foo", "bar", "x->y", "k1", "zed"];
@@ -119,7 +123,30 @@ impl<'a> G01<'a> {
             derived_nested: false,
             global_interaction: false,
             in_closure_depth: 0,
+            hidden: vec![],
+            shadowings: 0,
         }
+    }
+
+    /// a name for a new binding of a simple data type: mostly fresh, sometimes the name of a
+    /// visible variable of the same type (shadowing)
+    fn binding_name(&mut self, kind: &VKind, prefix: &str, taken: &[String]) -> String {
+        if let VKind::Data(t) = kind {
+            if matches!(t, Ty::Int | Ty::Bool | Ty::Sym) && self.rng.chance(1, 4) {
+                let t2 = t.clone();
+                let cands: Vec<String> = self
+                    .visible()
+                    .filter(|v| matches!(&v.kind, VKind::Data(x) if *x == t2))
+                    .map(|v| v.name.clone())
+                    .filter(|n| !taken.contains(n) && !n.starts_with('i') && !n.starts_with("acc"))
+                    .collect();
+                if !cands.is_empty() {
+                    self.shadowings += 1;
+                    return cands[self.rng.usize(cands.len())].clone();
+                }
+            }
+        }
+        self.fresh(prefix)
     }
 
     fn fresh(&mut self, prefix: &str) -> String {
@@ -153,6 +180,7 @@ impl<'a> G01<'a> {
                 VKind::Data(Ty::Fn(_)) => v.level < lvl,
                 _ => true,
             })
+            .filter(|v| !self.hidden.contains(&v.name))
             .filter(|v| pred(v))
             .cloned()
             .collect()
@@ -486,9 +514,13 @@ impl<'a> G01<'a> {
         let mut bindings = vec![];
         let mut newvars = vec![];
         let base = self.locals.len();
+        let mut taken: Vec<String> = vec![];
         for _ in 0..n {
             let (kind, init) = self.binding_init(depth);
-            let name = self.fresh("v");
+            let name = self.binding_name(&kind, "v", &taken);
+            if kw != "let*" {
+                taken.push(name.clone());
+            }
             bindings.push(list(vec![sym(&name), init]));
             let assignable = matches!(kind, VKind::Data(Ty::Int) | VKind::Data(Ty::Bool) | VKind::Data(Ty::Sym));
             let var = Var {
@@ -603,10 +635,27 @@ impl<'a> G01<'a> {
         // internal definitions (letrec* semantics; inits refer only to earlier ones)
         if self.rng.chance(1, 4) {
             let n = 1 + self.rng.usize(2);
-            for _ in 0..n {
+            for k in 0..n {
                 if self.rng.chance(1, 2) {
-                    let (kind, init) = self.binding_init(depth);
-                    let name = self.fresh("d");
+                    // the first internal definition of a body may reuse (shadow) the name of an
+                    // enclosing variable; that name is hidden while its own init is generated
+                    // (letrec* scoping: the init would see the new, uninitialised variable)
+                    let (kind, name, init) = if k == 0 && self.rng.chance(1, 3) {
+                        let probe_kind = VKind::Data(if self.rng.chance(3, 4) { Ty::Int } else { Ty::Sym });
+                        let name = self.binding_name(&probe_kind, "d", &[]);
+                        self.hidden.push(name.clone());
+                        let ty = match &probe_kind {
+                            VKind::Data(t) => t.clone(),
+                            _ => Ty::Int,
+                        };
+                        let init = self.expr(&ty, depth.saturating_sub(1));
+                        self.hidden.pop();
+                        (probe_kind, name, init)
+                    } else {
+                        let (kind, init) = self.binding_init(depth);
+                        let name = self.fresh("d");
+                        (kind, name, init)
+                    };
                     out.push(list(vec![sym("define"), sym(&name), init]));
                     let assignable = matches!(kind, VKind::Data(Ty::Int));
                     self.locals.push(Var {
